@@ -17,12 +17,15 @@ RULE = ("cases = overbook simulations with overcommit: 1..3 pools of 1..10 CPUs,
 ASSUMPTIONS = ["'ready' = assignable (pending or failed) with all parents completed", "failures are counted per pipeline from the reported failure results"]
 NSHARDS = {"quick": 16, "thorough": 16}
 N = {"quick": 60, "thorough": 4000}
-REQUIRE = {"scale:run_with_more_than_512_pipelines": 1, "overbook_assignments": 5000, "triggered_rounds": 3000, "rounds_with_full_cpus": 500, "pipelines_abandoned": 100,
+REQUIRE = {"scale:run_with_more_than_100000_pipelines": 1, "scale:run_with_more_than_512_pipelines": 1, "overbook_assignments": 5000, "triggered_rounds": 3000, "rounds_with_full_cpus": 500, "pipelines_abandoned": 100,
            "ticks_with_ram_overbooked": 1000, "sim_runs": 500}
 
 
 def cases(tier, seed, shard, nshards):
     rng = rng_for(ID, seed, shard)
+    if shard == 6:
+        # one run far beyond every bounded structure one would think of: > 100,000 pipelines known to one scheduler
+        yield _sim.scale_case(rng, "huge-ids")
     for i in range(N[tier]):
         c = _sim.random_sim_case(rng, small=True, algos=("overbook",), pools=rng.choice([1, 2, 3]),
                                  mem_levels=[0.1, 0.3, 0.45, 0.6, 0.9, 1.5, 3.0], npipes=rng.choice([3, 8, 20, 40]),
